@@ -173,6 +173,11 @@ class HyperWorld(World):
                     sim.add_dirichlet(sim.mesh.Nodes_Tags(self.tagA), [0.0] * len(self.un), self.un)
                     sim.add_dirichlet(sim.mesh.Nodes_Tags(self.tagB), [cfg["preload"]], [self.un[-1]])
                     sim.Solve()
+                    # the preloaded configuration is kept as iteration 0: a static iteration (no velocity, no
+                    # acceleration) that the dynamic run may be rolled back to (step-size studies do that)
+                    sim.Save_Iter()
+                    self.saved.append(float(sim._Calc_W()))
+                    self.static0 = True
             except SutError as e:
                 if simlib.is_nonconvergence(e.exc):
                     raise Discard("static preload did not converge")
@@ -279,8 +284,16 @@ class HyperWorld(World):
                 # back on the same trajectory: the energy is the one recorded when the step was saved
                 E = self._energy()[0]
                 if abs(E - self.saved[op["i"]]) > 1e-9 * self.Escale:
-                    raise Violation("rollback-changes-energy", f"KE + W after Set_Iter({op['i']}) = {E:.10e}, was {self.saved[op['i']]:.10e} when saved")
+                    raise Violation("rollback-changes-energy", f"KE + W after Set_Iter({op['i']}) = {E:.10e}, was {self.saved[op['i']]:.10e} when saved" + (" (a static iteration: the body is at rest there)" if op["i"] == 0 and getattr(self, "static0", False) else ""))
                 ctx.checked()
+            # the trajectory continues from the restored state: its constant is the energy of that state (the one
+            # recorded when the iteration was saved, checked above; a static iteration is a body at rest)
+            st = simlib.get_state(sim)[simlib.pt_key(self.pt)]
+            self.u0, self.v0 = st[0].copy(), st[1].copy()
+            if self.M is not None:
+                self.E0 = self.saved[op["i"]] if self.saved[op["i"]] is not None else self._energy()[0]
+            if op["i"] == 0 and getattr(self, "static0", False):
+                ctx.probe("rollback_to_static_preload")
             return "ok"
 
         if name == "tangent":
